@@ -3,7 +3,7 @@
    (R, 0, 1, +, *, -, opp) with Leibniz equality, in particular the reals; Model.centry /
    Model.tentry / Model.kentry are the entries of asarray() / asmatrix(). *)
 From Coq Require Import List Arith ZArith Ring.
-From Verif.C18 Require Import Model Proofs.
+From Verif.C18 Require Import Model Proofs Proofs2.
 Import ListNotations.
 
 (* range(n)[i] for an int i (negative allowed) is an existing position. *)
@@ -303,25 +303,170 @@ Theorem aca_rank_reduction_partial :
 Proof. exact aca_rank1. Qed.
 Print Assumptions aca_rank_reduction_partial.
 
+(* find_truncation_rank (the greedy loop of tensor.py:193-207 in exact arithmetic, any axis choice rule rltb): the squared Frobenius norm outside the returned shape is EXACTLY the accumulated error e of the slices cut off, and the test "tol^2 < e" is false - it never discards more than tol^2.  (The seeded change C18-1 broke the accumulator.) *)
+Theorem truncation_error_bound :
+  forall (R : Type) (rO rI : R) (radd rmul rsub : R -> R -> R) (ropp : R -> R),
+    ring_theory rO rI radd rmul rsub ropp eq ->
+    forall (rltb : R -> R -> bool) (X : full R) (tolsq : R) (shape' : list nat) (e : R),
+    rltb tolsq rO = false ->
+    find_truncation_rank R rO radd rmul rltb X tolsq = (shape', e) ->
+    sqnorm R rO radd rmul (fsh R X) (fe R X) = radd (sqnorm R rO radd rmul shape' (fe R X)) e /\
+    rltb tolsq e = false.
+Proof. exact truncation_bound. Qed.
+Print Assumptions truncation_error_bound.
+
+(* the loop of apply_tprod as written (for i in reversed(range(n)): contract axis n-1 with ops[i] - or roll it for None - and put the new axis first) computes the multi-way product, for any number of operators, None placeholders and trailing axes. *)
+Theorem apply_tprod_loop :
+  forall (R : Type) (rO : R) (radd rmul : R -> R -> R) (Bs : list (option (mat R))) 
+      (f : list nat -> R) (idx : list nat),
+    length Bs <= length idx -> tprod_loop R rO radd rmul Bs f idx = tprod R rO radd rmul Bs f idx.
+Proof. exact tprod_loop_spec. Qed.
+Print Assumptions apply_tprod_loop.
+
+(* entry (I,J) of asmatrix(A.slice(limits)) is entry (lo+I, lo+J) of asmatrix(A). *)
+Theorem canop_slice :
+  forall (R : Type) (rO rI : R) (radd rmul : R -> R -> R) (Op : list (list (mat R)))
+      (lims : list (nat * nat)) (I J : list nat),
+    Forall (fun t : list (mat R) => length t = length lims) Op ->
+    kentry R rO rI radd rmul (canop_slice R Op lims) I J =
+    kentry R rO rI radd rmul Op (add_idx I (map fst lims)) (add_idx J (map fst lims)).
+Proof. exact canop_slice_spec. Qed.
+Print Assumptions canop_slice.
+
+(* pad: apply_tprod with the padding matrices is np.pad with zeros (entry idx is X[idx - before] inside the original block, 0 outside), None = (0,0). *)
+Theorem pad_spec :
+  forall (R : Type) (rO rI : R) (radd rmul rsub : R -> R -> R) (ropp : R -> R),
+    ring_theory rO rI radd rmul rsub ropp eq ->
+    forall (widths : list (option (nat * nat))) (shape : list nat) (f : list nat -> R) (idx : list nat),
+    length shape = length widths ->
+    length idx = length widths ->
+    (forall J : list nat, all_lt J shape = false -> f J = rO) ->
+    tprod R rO radd rmul (pad_ops_of R rO rI widths shape) f idx =
+    (if (all_ge idx (pad_before widths) && all_lt (sub_idx idx (pad_before widths)) shape)%bool
+     then f (sub_idx idx (pad_before widths))
+     else rO).
+Proof. exact pad_tprod. Qed.
+Print Assumptions pad_spec.
+
+(* ... for canonical tensors *)
+Theorem pad_spec_canon :
+  forall (R : Type) (rO rI : R) (radd rmul rsub : R -> R -> R) (ropp : R -> R),
+    ring_theory rO rI radd rmul rsub ropp eq ->
+    forall (widths : list (option (nat * nat))) (A : list (mat R)) (idx : list nat),
+    length A = length widths ->
+    length idx = length widths ->
+    (forall J : list nat, all_lt J (cshape R A) = false -> centry R rO rI radd rmul A J = rO) ->
+    centry R rO rI radd rmul (factors_nway R rO radd rmul (pad_ops_of R rO rI widths (cshape R A)) A) idx =
+    (if (all_ge idx (pad_before widths) && all_lt (sub_idx idx (pad_before widths)) (cshape R A))%bool
+     then centry R rO rI radd rmul A (sub_idx idx (pad_before widths))
+     else rO).
+Proof. exact pad_canon_spec. Qed.
+Print Assumptions pad_spec_canon.
+
+(* ... and Tucker tensors. *)
+Theorem pad_spec_tucker :
+  forall (R : Type) (rO rI : R) (radd rmul rsub : R -> R -> R) (ropp : R -> R),
+    ring_theory rO rI radd rmul rsub ropp eq ->
+    forall (widths : list (option (nat * nat))) (Us : list (mat R)) (X : full R) (idx : list nat),
+    length Us = length widths ->
+    length idx = length widths ->
+    (forall J : list nat, all_lt J (tshape R Us) = false -> tentry R rO radd rmul Us X J = rO) ->
+    tentry R rO radd rmul (factors_nway R rO radd rmul (pad_ops_of R rO rI widths (tshape R Us)) Us) X idx =
+    (if (all_ge idx (pad_before widths) && all_lt (sub_idx idx (pad_before widths)) (tshape R Us))%bool
+     then tentry R rO radd rmul Us X (sub_idx idx (pad_before widths))
+     else rO).
+Proof. exact pad_tucker_spec. Qed.
+Print Assumptions pad_spec_tucker.
+
+(* CanonicalTensor.squeeze(axes): the entry of the result at idx is the entry of the original with 0 at the squeezed axes, for any duplicate-free axes (in any order) that leave at least one axis. *)
+Theorem canon_squeeze :
+  forall (R : Type) (rO rI : R) (radd rmul rsub : R -> R -> R) (ropp : R -> R),
+    ring_theory rO rI radd rmul rsub ropp eq ->
+    forall (Xs : list (mat R)) (axes idx : list nat),
+    uniform R Xs (crank R Xs) ->
+    NoDup axes ->
+    (forall a : nat, In a axes -> a < length Xs) ->
+    keep 0 Xs axes <> [] ->
+    length idx = length (keep 0 Xs axes) ->
+    centry R rO rI radd rmul (canon_squeeze_some R rO rI rmul Xs axes) idx =
+    centry R rO rI radd rmul Xs (unsqueeze (length Xs) axes idx).
+Proof. exact canon_squeeze_spec. Qed.
+Print Assumptions canon_squeeze.
+
+(* CanonicalTensor.__getitem__ IN FULL: for every accepted index expression (ints, negative ints, slices with steps, index lists, missing trailing axes) the result - a tensor over the axes not indexed by an int, or the scalar when all are - has exactly the selected entries of the original. *)
+Theorem canon_getitem :
+  forall (R : Type) (rO rI : R) (radd rmul rsub : R -> R -> R) (ropp : R -> R),
+    ring_theory rO rI radd rmul rsub ropp eq ->
+    forall (Xs : list (mat R)) (II : list index) (ax : list (list nat * bool)) 
+      (t' : tens R) (idx' : list nat),
+    uniform R Xs (crank R Xs) ->
+    Xs <> [] ->
+    normalize_indices II (cshape R Xs) = Ok ax ->
+    getitem R rO rI radd rmul (TCanon R Xs) II = Ok t' ->
+    length idx' = length (filter negb (map snd ax)) ->
+    entry R rO rI radd rmul t' idx' =
+    centry R rO rI radd rmul Xs (sel_idx (sel_ranges ax) (unsqb (map snd ax) idx')).
+Proof. exact canon_getitem_spec. Qed.
+Print Assumptions canon_getitem.
+
+(* TuckerTensor.squeeze(axes): same statement for Tucker tensors (core contracted with the singleton factors). *)
+Theorem tucker_squeeze :
+  forall (R : Type) (rO rI : R) (radd rmul rsub : R -> R -> R) (ropp : R -> R),
+    ring_theory rO rI radd rmul rsub ropp eq ->
+    forall (Us : list (mat R)) (X : full R) (axes idx : list nat),
+    core_ok R Us X ->
+    length idx = length (keep 0 Us axes) ->
+    let
+    '(Us', X') := tucker_squeeze_some R rO radd rmul Us X axes in
+     tentry R rO radd rmul Us' X' idx = tentry R rO radd rmul Us X (unsqueeze (length Us) axes idx).
+Proof. exact tucker_squeeze_spec. Qed.
+Print Assumptions tucker_squeeze.
+
+(* CanonicalTensor.from_tensor(TuckerTensor) expands to the same array whenever the dropped core entries are exactly zero. *)
+Theorem tucker_to_canon :
+  forall (R : Type) (rO rI : R) (radd rmul rsub : R -> R -> R) (ropp : R -> R),
+    ring_theory rO rI radd rmul rsub ropp eq ->
+    forall (nonzero : R -> bool) (Us : list (mat R)) (X : full R) (idx : list nat),
+    (forall a : R, nonzero a = false -> a = rO) ->
+    core_ok R Us X ->
+    Us <> [] ->
+    length idx = length Us ->
+    centry R rO rI radd rmul (tucker_to_canon R rO rmul nonzero Us X) idx = tentry R rO radd rmul Us X idx.
+Proof. exact tucker_to_canon_spec. Qed.
+Print Assumptions tucker_to_canon.
+
+(* PARTIAL: TensorGenerator.__getitem__ for index expressions without int indices (slices with steps,
+   index lists, missing trailing axes): the returned array has shape shape_new and, at C-order position
+   ravel(shape_new, idx), exactly the wrapped entry at the selected positions.
+   NOT PROVED: the same with int indices, i.e. that np.squeeze of the unit axes leaves the C-order
+   position unchanged (ravel invariance under dropping axes of length 1). *)
+Theorem generator_getitem_spec_partial :
+  forall (R : Type) (shape : list nat) (f : list nat -> R) (II : list index)
+      (ax : list (list nat * bool)) (sh : list nat) (data : list R) (idx : list nat) 
+      (d : R),
+    normalize_indices II shape = Ok ax ->
+    sel_singletons 0 ax = [] ->
+    gen_getitem R shape f II = Ok (sh, data) ->
+    length idx = length ax ->
+    all_lt idx (sel_shape ax) = true ->
+    sh = sel_shape ax /\ nth (ravel sh idx) data d = f (sel_idx (sel_ranges ax) idx).
+Proof. exact generator_getitem_noint. Qed.
+Print Assumptions generator_getitem_spec_partial.
+
 (* NOT PROVED (kept as statements; these conjuncts rest on the exact correspondence run only):
 
    aca_rank_reduction (full):  forall r, a matrix of exact rank r is reproduced after r accepted
      crosses (Wedderburn rank reduction).  Missing: a rank notion over the abstract ring / field;
-     proved above: the residual vanishes on every pivot row and column, and the rank-1 case.
+     proved: the residual vanishes on every pivot row and column (and stays so is NOT proved), rank 1.
 
-   canon_squeeze / tucker_squeeze (and therefore the squeeze half of __getitem__):
-     centry (canon_squeeze_some Xs axes) idx = centry Xs (unsqueeze (length Xs) axes idx)
-     for duplicate-free axes of singleton length.  Missing: the permutation argument relating the
-     product over the list [axes] to the product over positions.
+   tucker_getitem: the Tucker analogue of canon_getitem (row selection + tucker_squeeze are proved
+     separately; the case analysis of squeeze_axes is not assembled).
 
-   tucker_to_canon:  nonzero a = false -> a = 0  ->
-     centry (tucker_to_canon Us X) idx = tentry Us X idx.   Missing: nested sum = sum over ndindex.
+   generator_getitem_spec with int indices: ravel invariance under dropping unit axes is missing
+     (generator_getitem_spec_partial covers every expression without int indices).
 
-   apply_tprod_loop:  tprod_loop Bs f idx = tprod Bs f idx  (the rotate-and-contract loop of
-     tensor.py:119-128 equals the nested-sum definition).  Missing: list rotation bookkeeping.
+   truncation with orthonormal factors: ||A - truncate(A)||_F^2 = discarded core mass needs the
+     isometry of orthonormal mode products (not modelled: QR/SVD are LAPACK's); truncation_error_bound
+     is the statement about the core.
 
-   generator_getitem_spec:  nth (ravel shape' idx') (snd (gen_getitem shape f I)) = f (selected idx).
-     Missing: nth of [product] at a ravelled position.
-
-   pad_spec, canop_slice, truncation_error_bound, error_history_monotone: tie only
-     (harness/props/c18_num.py states the bounds). *)
+   error_history_monotone: tie only (harness/props/c18_num.py states the bounds). *)
